@@ -153,7 +153,7 @@ class AccountingAnswer(Accounting):
         AvpGenDef("nas_port", AVP_NAS_PORT),
         AvpGenDef("nas_port_id", AVP_NAS_PORT_ID),
         AvpGenDef("nas_port_type", AVP_NAS_PORT_TYPE),
-        AvpGenDef("service_stype", AVP_SERVICE_TYPE),
+        AvpGenDef("service_type", AVP_SERVICE_TYPE),
         AvpGenDef("termination_cause", AVP_TERMINATION_CAUSE),
         AvpGenDef("state_class", AVP_CLASS),
     )
@@ -324,7 +324,7 @@ class AccountingRequest(Accounting):
         AvpGenDef("nas_port_id", AVP_NAS_PORT_ID),
         AvpGenDef("nas_port_type", AVP_NAS_PORT_TYPE),
         AvpGenDef("state_class", AVP_CLASS),
-        AvpGenDef("service_stype", AVP_SERVICE_TYPE),
+        AvpGenDef("service_type", AVP_SERVICE_TYPE),
         AvpGenDef("termination_cause", AVP_TERMINATION_CAUSE),
         AvpGenDef("accounting_input_octets", AVP_ACCOUNTING_INPUT_OCTETS),
         AvpGenDef("accounting_input_packets", AVP_ACCOUNTING_INPUT_PACKETS),
